@@ -293,21 +293,48 @@ func exprString(n ast.Node) string {
 type leanFile struct {
 	name  string // e.g. "Advertise"
 	lines []string
+	defd  map[string]bool
+}
+
+// once reports whether name is defined for the first time; a second definition of the same fact
+// (the source has two sites matching one pattern) is an extraction error, never an ill-formed file.
+func (l *leanFile) once(name string) bool {
+	if l.defd == nil {
+		l.defd = map[string]bool{}
+	}
+	if l.defd[name] {
+		failf("%s: fact %s found at more than one site of the source", l.name, name)
+		return false
+	}
+	l.defd[name] = true
+	return true
 }
 
 func (l *leanFile) Int(name string, v int64, src string) {
+	if !l.once(name) {
+		return
+	}
 	l.lines = append(l.lines, fmt.Sprintf("/-- %s -/\ndef %s : Int := %d", src, name, v))
 	facts[l.name+"."+name] = v
 }
 func (l *leanFile) Nat(name string, v int64, src string) {
+	if !l.once(name) {
+		return
+	}
 	l.lines = append(l.lines, fmt.Sprintf("/-- %s -/\ndef %s : Nat := %d", src, name, v))
 	facts[l.name+"."+name] = v
 }
 func (l *leanFile) Bool(name string, v bool, src string) {
+	if !l.once(name) {
+		return
+	}
 	l.lines = append(l.lines, fmt.Sprintf("/-- %s -/\ndef %s : Bool := %v", src, name, v))
 	facts[l.name+"."+name] = v
 }
 func (l *leanFile) Strs(name string, v []string, src string) {
+	if !l.once(name) {
+		return
+	}
 	q := make([]string, len(v))
 	for i, s := range v {
 		q[i] = strconv.Quote(s)
@@ -316,6 +343,9 @@ func (l *leanFile) Strs(name string, v []string, src string) {
 	facts[l.name+"."+name] = v
 }
 func (l *leanFile) Str(name string, v string, src string) {
+	if !l.once(name) {
+		return
+	}
 	l.lines = append(l.lines, fmt.Sprintf("/-- %s -/\ndef %s : String := %s", src, name, strconv.Quote(v)))
 	facts[l.name+"."+name] = v
 }
@@ -551,7 +581,7 @@ func genAdvertise(repo string) *leanFile {
 			if !ok || exprString(c.Fun) != "make" || len(c.Args) < 1 || len(c.Args) > 2 {
 				return true
 			}
-			if exprString(c.Args[0]) == "<*ast.ChanType>" || strings.Contains(fmt.Sprintf("%T", c.Args[0]), "ChanType") {
+			if ct, isChan := c.Args[0].(*ast.ChanType); isChan && exprString(ct.Value) == "netip.Addr" {
 				if len(c.Args) == 1 {
 					// unbuffered
 					l.Nat("ipCCap", 0, "advertise(): make(chan netip.Addr)")
